@@ -10,6 +10,7 @@ import (
 	"regexp"
 	"sort"
 	"strings"
+	"sync/atomic"
 	"time"
 )
 
@@ -78,6 +79,7 @@ type Ctx struct {
 	Seed             int64
 	Res              *Result
 	idx              int64
+	progress         int64 // bumped by Begin and Tick; read by the stall monitor
 	ReplayIdx        int64 // -1 = normal run
 	ReplayChoices    []int
 	Verbose          bool
@@ -103,6 +105,7 @@ func (c *Ctx) SetJournal(f *os.File) { c.journal = f }
 // selecting another index, or the deadline passed).
 func (c *Ctx) Begin() bool {
 	c.idx++
+	atomic.AddInt64(&c.progress, 1)
 	if c.ReplayIdx >= 0 {
 		return c.idx == c.ReplayIdx
 	}
@@ -124,6 +127,12 @@ func (c *Ctx) Begin() bool {
 	c.Res.Evaluations++
 	return true
 }
+
+// Tick tells the stall monitor that the current case is making progress (for cases that legitimately take long).
+func (c *Ctx) Tick() { atomic.AddInt64(&c.progress, 1) }
+
+// Progress is read by the stall monitor.
+func (c *Ctx) Progress() int64 { return atomic.LoadInt64(&c.progress) }
 
 // Stop ends the unit early (after a violation that makes further cases pointless or harmful, such as
 // a blocked call that leaks goroutines): later Begin calls return false and the unit is not exhaustive.
@@ -239,6 +248,10 @@ type Prop struct {
 	MinOutcomes  int
 	// Post runs in the coordinator after merging (e.g. extra passes such as -race).
 	Post func(tier string, m *Merged) error
+	// StallS > 0: a worker whose current case makes no progress for that many seconds ends itself with a
+	// "watchdog" line; the coordinator's journal re-run then attributes the stall to the case in flight.
+	// Only for properties whose cases take micro- to milliseconds (a stalled call is their subject).
+	StallS int
 }
 
 var registry = map[string]*Prop{}
